@@ -13,7 +13,7 @@ CLAIMS = {
              "of the three deques; handler lists iterated as snapshots; sort by priority descending after every "
              "insert; handler kwargs merged after posted kwargs; condition evaluated on the merged kwargs before each "
              "call; completion callback queued once, run only between full drains. Depth-first order for every posting "
-             "tree and exactly-once delivery are not decided. Also: the deque being drained is never the deque posts append to (fresh deque installed before any dispatch); the public wrappers forward event, callback, priority, facility and **kwargs; the stored priority is the caller's plus additive adjustments; the blocking skip needs a strictly higher posted minimum. Also: a handler's condition is evaluated in that handler's own iteration of the dispatch loop (never once ahead of it); the priority sort follows every insertion also through local aliases of the handler list. Also: handler removal scans (remove_handler / by key / by keys) are never left early and match exactly the handler or key asked for; the dispatch loop anchor is a verdict. Also: replace_handler removes exactly the old registrations of that handler (with these kwargs when kwargs are given) and always registers; an event's entry is dropped only when empty; a group of waiters (wait_for_any_event) is removed as a whole by the first that fires. Also: removal by key finds the registration (returned key carries the parsed event name and the stored key); the dispatch loop is left before the last handler only by a boolean event whose handler returned False. Also: when the drained batch runs empty the suspended one is resumed before anything is stacked on it (no emptied batch above a suspended one); the queue runner calls the completion callback at most once on any path. Also: the `.N` priority suffix is the whole text after the dot.",
+             "tree and exactly-once delivery are not decided. Also: the deque being drained is never the deque posts append to (fresh deque installed before any dispatch); the public wrappers forward event, callback, priority, facility and **kwargs; the stored priority is the caller's plus additive adjustments; the blocking skip needs a strictly higher posted minimum. Also: a handler's condition is evaluated in that handler's own iteration of the dispatch loop (never once ahead of it); the priority sort follows every insertion also through local aliases of the handler list. Also: handler removal scans (remove_handler / by key / by keys) are never left early and match exactly the handler or key asked for; the dispatch loop anchor is a verdict. Also: replace_handler removes exactly the old registrations of that handler (with these kwargs when kwargs are given) and always registers; an event's entry is dropped only when empty; a group of waiters (wait_for_any_event) is removed as a whole by the first that fires. Also: removal by key finds the registration (returned key carries the parsed event name and the stored key); the dispatch loop is left before the last handler only by a boolean event whose handler returned False. Also: when the drained batch runs empty the suspended one is resumed before anything is stacked on it (no emptied batch above a suspended one); the queue runner calls the completion callback at most once on any path. Also: the `.N` priority suffix is the whole text after the dot. Also: the done-callback of a coroutine handler releases the queue event on every returning path, cancellation included.",
         technique="who-may-call over a whole-repo use index; CFG dominance/must-pass; deque end discipline; merge-order normalisation",
         ref="4/C01"),
     "C02": dict(
@@ -27,7 +27,7 @@ CLAIMS = {
              "field that a tabled completion method clears, or captured by a clearing callback on every path; the "
              "counting waits clear at zero; event-type tokens and namedtuple indices agree between poster and "
              "dispatcher; QueuedEvent wait/clear typestate. Lost wake-ups of arbitrary user handlers and the "
-             "relative timing of clears are not decided. Also: the handlers' result reaches the completion callback as ev_result, stored before the callback is queued. Also: sufficiency of the boolean abort and the relay merge (nothing but type and result decide); a clearing callback whose registration key is stored per wait is removed only through that key and clears its own queue on every path; the game-end and ball-end stop loops stop every matching mode (no further condition, whole collection, no early exit, bookkeeping before stop()). Also: the queue-event handler loop is never left early (every registered handler is asked before the queue decides); the relay/queue dispatch of _run_handlers merges kwargs and evaluates conditions the same way as the plain dispatch; game and ball stop loops select exactly the modes flagged to stop, with their book-keeping done before the stop is requested. Also: Mode.start touches the queue of the starting event only once the request is accepted (after every refusal exit). Also: the queue-event runner evaluates a handler's condition at that handler's turn, on the merged kwargs; replace_handler registers with the priority it was given. Also: every returning path of the queue-event runner fires the completion callback (also when the handlers vanished before its first step: F21, fixed); the handler list is re-sorted after every insertion (shared with C01). Also: no loop over the stop callbacks (or any walked container of the analysed functions) changes the container it walks (generic ITERMUT-0).",
+             "relative timing of clears are not decided. Also: the handlers' result reaches the completion callback as ev_result, stored before the callback is queued. Also: sufficiency of the boolean abort and the relay merge (nothing but type and result decide); a clearing callback whose registration key is stored per wait is removed only through that key and clears its own queue on every path; the game-end and ball-end stop loops stop every matching mode (no further condition, whole collection, no early exit, bookkeeping before stop()). Also: the queue-event handler loop is never left early (every registered handler is asked before the queue decides); the relay/queue dispatch of _run_handlers merges kwargs and evaluates conditions the same way as the plain dispatch; game and ball stop loops select exactly the modes flagged to stop, with their book-keeping done before the stop is requested. Also: Mode.start touches the queue of the starting event only once the request is accepted (after every refusal exit). Also: the queue-event runner evaluates a handler's condition at that handler's turn, on the merged kwargs; replace_handler registers with the priority it was given. Also: every returning path of the queue-event runner fires the completion callback (also when the handlers vanished before its first step: F21, fixed); the handler list is re-sorted after every insertion (shared with C01). Also: no loop over the stop callbacks (or any walked container of the analysed functions) changes the container it walks (generic ITERMUT-0). Also: the relay player forgets the waits of a context after releasing them.",
         technique="taint of **kwargs into post_queue; CFG must-pass/dominance/facts for wait-clear typestate; table agreement",
         ref="4/C02"),
     "C03": dict(
@@ -41,7 +41,7 @@ CLAIMS = {
              "membership re-checks; due test, delete-after-fire and earliest-deadline rescheduling; a scheduled "
              "wake-up is only replaced after unscheduling it; remove purges both stores with the exact match key; "
              "switch events are posted for the new state. Exactly-once over arbitrary timelines, coincident "
-             "deadlines and recycle windows are not decided. Also: entry points and removal wrappers hand their arguments to the worker unchanged; is_state/is_active/is_inactive compare the logical state and the elapsed ms; the initial hardware read applies NC inversion to every switch of the platform read; switch events are registered for the state their source names; the earliest deadline is armed on every path; no container is mutated while it is iterated. Also: every live handler of the new state is called or armed (exact selection), every due timed handler fires and every fired deadline is forgotten, removal matches exactly (callback, ms), the next wake-up is the running minimum of the pending deadlines, hold-time strings are parsed by the millisecond parser and never rescaled. Also: the raw hardware level (hw_state) is read only where hardware reports are compared (never by logical-state consumers). Also (ignore_window_ms): outside a window a change opens one, books its end and is announced; at the end the window is closed first and the current state announced exactly when it differs from the announced one. Also: loops that act on every registration matching (callback, ms) are left only by exhaustion. Also: a call that forwards a parameter by name forwards every other parameter the callee shares (the waiter's immediate answer takes the hold time; generic DROP-0).",
+             "deadlines and recycle windows are not decided. Also: entry points and removal wrappers hand their arguments to the worker unchanged; is_state/is_active/is_inactive compare the logical state and the elapsed ms; the initial hardware read applies NC inversion to every switch of the platform read; switch events are registered for the state their source names; the earliest deadline is armed on every path; no container is mutated while it is iterated. Also: every live handler of the new state is called or armed (exact selection), every due timed handler fires and every fired deadline is forgotten, removal matches exactly (callback, ms), the next wake-up is the running minimum of the pending deadlines, hold-time strings are parsed by the millisecond parser and never rescaled. Also: the raw hardware level (hw_state) is read only where hardware reports are compared (never by logical-state consumers). Also (ignore_window_ms): outside a window a change opens one, books its end and is announced; at the end the window is closed first and the current state announced exactly when it differs from the announced one. Also: loops that act on every registration matching (callback, ms) are left only by exhaustion. Also: a call that forwards a parameter by name forwards every other parameter the callee shares (the waiter's immediate answer takes the hold time; generic DROP-0). Also: the pending hold-time deadlines of a switch are dropped wholesale only by a state change, never by a removal.",
         technique="unit (dimension) inference; CFG dominance/guards; feasible-path enumeration; snapshot-iteration rule",
         ref="4/C03"),
     "C08": dict(
@@ -57,7 +57,7 @@ CLAIMS = {
              "arms self.disable with ms=pulse_ms on the enabling path; the max_hold_duration watchdog is armed on "
              "every enabling path, in milliseconds, not restartable, removed by disable; hold power 0 is refused; "
              "control events map parameters one-to-one onto the verifying API. PSU wait arithmetic and timer "
-             "interleavings are not decided. Also: the constant full-power hold fallback is granted only by allow_enable. Also: the software-timed switch-off is armed before the coil is switched on. Also: DelayManager.add never runs the delayed callback itself and registers with the clock on every path (the switch-off armed before the switch-on cannot run first). Also: no coil-driving device bounds a value with min / max against a max_* limit (refused, never clamped).",
+             "interleavings are not decided. Also: the constant full-power hold fallback is granted only by allow_enable. Also: the software-timed switch-off is armed before the coil is switched on. Also: DelayManager.add never runs the delayed callback itself and registers with the clock on every path (the switch-off armed before the switch-on cannot run first). Also: no coil-driving device bounds a value with min / max against a max_* limit (refused, never clamped). Also: disable() switches the coil off before it forgets the max_hold_duration watchdog.",
         technique="who-may-call/escape analysis; def-use provenance across call sites; feasible-path guard analysis; dead-guard interval check; unit inference",
         ref="4/C08"),
     "C13": dict(
@@ -85,7 +85,7 @@ CLAIMS = {
              "default, required ones raise; build_spec deep-copies, a section overrides its bases, nothing but "
              "load_mode_config_spec stores into the shared spec and validation never writes the cached merged spec; "
              "the time-suffix cascade strips len(suffix), has no shadowed branch and the SI multipliers; secs/ms "
-             "sibling validators use the converter of their unit. Type soundness over all YAML values is not decided. Also: no validator falls off its end and None is answered only for an absent value; template validators assert the raw type before building. Also: a validator that checks membership in the declared value set returns the very value it checked; in _validate_config exactly the provided keys are validated and exactly the missing ones defaulted, only `ignore` / private keys are left alone, every key that is not in the spec is rejected; no time string in the repository is parsed in the other unit and rescaled. Also: int() is the outermost (last) operation of string_to_ms / string_to_secs conversions (rounded once). Also: a validator returns the given value unconverted only under an isinstance / predicate test on it; text recognisers used by validators match the whole string. Also: a dict setting reaches key/value validation only as a mapping (the event-list form is for event_handler settings); is_power2 is the bit test on a non-zero number. Also: the colour validator returns exactly three components on every path; event_handler strings are split by the condition-aware splitter. Also: a text recognised by one pattern and cut by another (hex colours) meets a cutter that knows every character the recogniser accepts after the case folding applied. Also: X_or_token validates a plain value like X including the spec's range; no method fills a class-level container (generic SHARED-0: the merged-spec cache stays per validator).",
+             "sibling validators use the converter of their unit. Type soundness over all YAML values is not decided. Also: no validator falls off its end and None is answered only for an absent value; template validators assert the raw type before building. Also: a validator that checks membership in the declared value set returns the very value it checked; in _validate_config exactly the provided keys are validated and exactly the missing ones defaulted, only `ignore` / private keys are left alone, every key that is not in the spec is rejected; no time string in the repository is parsed in the other unit and rescaled. Also: int() is the outermost (last) operation of string_to_ms / string_to_secs conversions (rounded once). Also: a validator returns the given value unconverted only under an isinstance / predicate test on it; text recognisers used by validators match the whole string. Also: a dict setting reaches key/value validation only as a mapping (the event-list form is for event_handler settings); is_power2 is the bit test on a non-zero number. Also: the colour validator returns exactly three components on every path; event_handler strings are split by the condition-aware splitter. Also: a text recognised by one pattern and cut by another (hex colours) meets a cutter that knows every character the recogniser accepts after the case folding applied. Also: X_or_token validates a plain value like X including the spec's range; no method fills a class-level container (generic SHARED-0: the merged-spec cache stays per validator). Also: the event-list pattern's brace group ends at the first closing brace (lazy).",
         technique="table agreement (spec file vs validator table vs signatures); CFG must-pass; who-may-write; suffix-shadowing and constant folding",
         ref="4/C12"),
     "C14": dict(
@@ -117,7 +117,7 @@ CLAIMS = {
              "permanently while being loaded is removed (by stored keys or by callback) when the mode unloads it; "
              "enable/disable idempotence guards read the state they write; active_modes is mutated only by "
              "set_mode_state and sorted by (priority, name) descending after every change. Registry equality for "
-             "arbitrary user mode code and overlapping requests beyond the flag guards are not decided. Also: switch handlers are removed by key; add_mode_event_handler forwards kwargs and returns the key; clear_context loops act on their records. Also: every non-empty result of a start method is recorded as a stop method and every recorded stop method runs unconditionally. Also: the returned EventHandlerKey carries the parsed event name and the stored key; removal by key is exact; mode delays live on the mode's own DelayManager; clear_context never removes handlers by method or by event. Also: the start queue a mode parks is released and forgotten when it has stopped (shared with C02); every clean-up step of a device_removed_from_mode is unconditional or guarded only by the presence of the object it acts on. Also: a config player plays for a mode only while that mode is active, under the mode's own context. Also: the game waits for every active game mode when it stops, also one already stopping. Also: removal of a key list removes every key of the list through the by-key removal. Also: a mode device that owns a delay manager and arms delays clears them on every path of its unload (tabled: timer, ball save, drop target bank with reasons; logic block by required name) - F23 and F24 found by this rule and fixed. Also: a sequence shot drops its sequences in progress on unload.",
+             "arbitrary user mode code and overlapping requests beyond the flag guards are not decided. Also: switch handlers are removed by key; add_mode_event_handler forwards kwargs and returns the key; clear_context loops act on their records. Also: every non-empty result of a start method is recorded as a stop method and every recorded stop method runs unconditionally. Also: the returned EventHandlerKey carries the parsed event name and the stored key; removal by key is exact; mode delays live on the mode's own DelayManager; clear_context never removes handlers by method or by event. Also: the start queue a mode parks is released and forgotten when it has stopped (shared with C02); every clean-up step of a device_removed_from_mode is unconditional or guarded only by the presence of the object it acts on. Also: a config player plays for a mode only while that mode is active, under the mode's own context. Also: the game waits for every active game mode when it stops, also one already stopping. Also: removal of a key list removes every key of the list through the by-key removal. Also: a mode device that owns a delay manager and arms delays clears them on every path of its unload (tabled: timer, ball save, drop target bank with reasons; logic block by required name) - F23 and F24 found by this rule and fixed. Also: a sequence shot drops its sequences in progress on unload. Also: every accepted start stores the callback of that request (no callback survives into a later start).",
         technique="event-chain extraction; CFG must-pass typestate; who-may-write; sibling agreement over ConfigPlayer/ModeDevice subclasses",
         ref="4/C07"),
     "C05": dict(
@@ -154,7 +154,7 @@ CLAIMS = {
              "exactly one ball to the ball_missing_target and reports one missing ball, takes one available ball off "
              "exactly when a replacement was found on the path and is requested for the device that lost it; the arrival "
              "callback sets up one eject per unclaimed ball and announces balls_available once per new ball. Equality with the physical machine, conservation and bounds over all "
-             "schedules - the bulk of the property - are NOT decided (runtime arithmetic over interleavings). Also: a ball assumed to have jumped between playfields leaves both counts of the source and enters both of the target, only towards a playfield with a negative count, one ball per deficit. Also: lost/ejected/incoming ball handlers and the arrival loops move exactly one ball per event. Also: the count handler's old-count snapshot is read after the await that delivers the new count and nothing is awaited before the new count is stored; the switch counter distrusts a jam-only count of one exactly when it had balls before; end_eject is told the awaited confirmation outcome (or False), never an assumed True; ball-search give-up writes off exactly the playfield's count read before it is zeroed. Also: a ball put into another device's unclaimed pool is taken out of the device's own pool on the same path (CLAIM-4, exposed defect F19, fixed). Also: an eject is tracked from a settled count (EjectTracker.will_eject and the entrance counter wait for a stable count first); the entrance counter keeps one ignore window per switch and never clears the whole table. Also: balls that left together with an ejected one are reported one by one and the recount is stored on every path after the report (F22, fixed); the configured ball switches are never edited (generic CONFIG-0), so the capacity stays the configured one. Also: the ball-left timer lowers a switch counter's count exactly when the count is reliable; a hold-coil release always ends its release state; an entrance during an eject is announced and counted together on every path.",
+             "schedules - the bulk of the property - are NOT decided (runtime arithmetic over interleavings). Also: a ball assumed to have jumped between playfields leaves both counts of the source and enters both of the target, only towards a playfield with a negative count, one ball per deficit. Also: lost/ejected/incoming ball handlers and the arrival loops move exactly one ball per event. Also: the count handler's old-count snapshot is read after the await that delivers the new count and nothing is awaited before the new count is stored; the switch counter distrusts a jam-only count of one exactly when it had balls before; end_eject is told the awaited confirmation outcome (or False), never an assumed True; ball-search give-up writes off exactly the playfield's count read before it is zeroed. Also: a ball put into another device's unclaimed pool is taken out of the device's own pool on the same path (CLAIM-4, exposed defect F19, fixed). Also: an eject is tracked from a settled count (EjectTracker.will_eject and the entrance counter wait for a stable count first); the entrance counter keeps one ignore window per switch and never clears the whole table. Also: balls that left together with an ejected one are reported one by one and the recount is stored on every path after the report (F22, fixed); the configured ball switches are never edited (generic CONFIG-0), so the capacity stays the configured one. Also: the ball-left timer lowers a switch counter's count exactly when the count is reliable; a hold-coil release always ends its release state; an entrance during an eject is announced and counted together on every path. Also: a skipping ball is added to the target's claim only on the unqueued route; the switch counter watches exactly the switches it counts.",
         technique="CFG must-pass / guard analysis; who-may-call / who-may-write; paired-delta extraction",
         ref="4/C04"),
     "C06": dict(
@@ -184,7 +184,7 @@ CLAIMS = {
              "requires, software fade steps are clamped and end on the target; a running software fade is cancelled "
              "before a newer command takes effect; the batch system records every value it sends and skips only "
              "finished fades equal to the recorded state. Correctness of the suppression shortcuts over histories, "
-             "interpolated values and batching are not decided. Also: colour read from stack[0] and a transparent entry defers to exactly stack[1:]; both colours gamma/colour corrected before the channel split, white = min(r,g,b); set_fade ends in a command for the target or a fade task whose last command is the target; every dirty light ends up in a sent batch, unfinished fades are rescheduled and the scheduler is woken; the blend ratio of a running fade is (t - start) / (end - start), used only where start < t <= end, with the endpoint itself returned outside (interpolation never leaves the endpoints); a new fade starts from the colour shown below the new entry, read before the old entry of the same key is removed. Also: start and target brightness of every channel come from the same formula under the same conditions; a light joins a running batch exactly when it directly succeeds the previous one and a brightness joins the running list exactly within the fade tolerance and batch size; the dirty flag is consumed right after the wake-up; stack scans match the key / opaque entries exactly; each key's fade-out has its own clean-up timer and starts from the colour of the removed key's own layer. Also: the per-key fade timer name is shared by arm and cancel sites; the suppression shortcuts index the remembered (colour, fade, done) tuple by its layout. Also: the handle of the running software fade is written only where fades are started or replaced, never by the fade coroutine. Also: a light uses its own colour-correction profile when it names one, the machine default only otherwise. Also: removing a key that is in the stack always takes its entry out (also while it fades out) and updates the light; the brightness subscription is renewed on every path (generic REARM-0). Also: every colour command becomes a stack entry (color / on / off never return before _add_to_stack; arguments handed on); the light player addresses stacks under one key expression, walks every light, records every colour it set and removes exactly those; the update shortcuts read the remembered fade by its stored layout, also through an unpacking. Also: the default fade stands in only for a fade that was not given (None).",
+             "interpolated values and batching are not decided. Also: colour read from stack[0] and a transparent entry defers to exactly stack[1:]; both colours gamma/colour corrected before the channel split, white = min(r,g,b); set_fade ends in a command for the target or a fade task whose last command is the target; every dirty light ends up in a sent batch, unfinished fades are rescheduled and the scheduler is woken; the blend ratio of a running fade is (t - start) / (end - start), used only where start < t <= end, with the endpoint itself returned outside (interpolation never leaves the endpoints); a new fade starts from the colour shown below the new entry, read before the old entry of the same key is removed. Also: start and target brightness of every channel come from the same formula under the same conditions; a light joins a running batch exactly when it directly succeeds the previous one and a brightness joins the running list exactly within the fade tolerance and batch size; the dirty flag is consumed right after the wake-up; stack scans match the key / opaque entries exactly; each key's fade-out has its own clean-up timer and starts from the colour of the removed key's own layer. Also: the per-key fade timer name is shared by arm and cancel sites; the suppression shortcuts index the remembered (colour, fade, done) tuple by its layout. Also: the handle of the running software fade is written only where fades are started or replaced, never by the fade coroutine. Also: a light uses its own colour-correction profile when it names one, the machine default only otherwise. Also: removing a key that is in the stack always takes its entry out (also while it fades out) and updates the light; the brightness subscription is renewed on every path (generic REARM-0). Also: every colour command becomes a stack entry (color / on / off never return before _add_to_stack; arguments handed on); the light player addresses stacks under one key expression, walks every light, records every colour it set and removes exactly those; the update shortcuts read the remembered fade by its stored layout, also through an unpacking. Also: the default fade stands in only for a fade that was not given (None). Also: an already realised light is skipped only at the beginning of a batch; a fade-out starts from the colour of the sub-stack beginning at the removed key.",
         technique="who-may-write; CFG must-pass / definite assignment; guard analysis; unit inference; sibling interface completeness",
         ref="4/C09"),
     "C10": dict(
@@ -232,7 +232,7 @@ CLAIMS = {
              "record contains every key the loader reads, only persistent variables are written, expired or malformed "
              "records are skipped; FileManager.save is called only by the writer thread. Known finding F6b: nothing waits "
              "for the daemon writer thread at shutdown. Crash points (no fsync reasoning) and value equality after reload "
-             "are not decided. Also: the writer loop runs while the machine is not stopped and writes exactly when the dirty flag was raised; every well-formed, unexpired record is restored and a record is skipped only when malformed or expired. Also: the record fields are updated before the disk write is requested and expiry = now + expire_secs; the temp file location and per-target name; the YAML writer and reader open with the same explicitly named text encoding; the writer threads are told to stop only in MachineController.shutdown, which _do_stop reaches after the `shutdown` event was posted and the queue drained. Also: the shutdown flush depends on nothing but the dirty flag (a busy file manager is waited for); every expiry deadline is wall-clock now + expire_secs and the loader is handed the wall clock. Also: the handler of a failed write only logs (nothing in it can raise and end the writer thread); loading converts exactly maps to dict and sequences to list. Also: every normal way out of the writer thread passes the shutdown flush test; a restarted expiry deadline is written to disk on every path. Also: an operator setting's variable is marked persistent before its value is set (the set is what writes). Also: the finished temp file replaces the target in one step (no remove / rename of the target); a removed machine variable is removed on disk by rewriting the whole set.",
+             "are not decided. Also: the writer loop runs while the machine is not stopped and writes exactly when the dirty flag was raised; every well-formed, unexpired record is restored and a record is skipped only when malformed or expired. Also: the record fields are updated before the disk write is requested and expiry = now + expire_secs; the temp file location and per-target name; the YAML writer and reader open with the same explicitly named text encoding; the writer threads are told to stop only in MachineController.shutdown, which _do_stop reaches after the `shutdown` event was posted and the queue drained. Also: the shutdown flush depends on nothing but the dirty flag (a busy file manager is waited for); every expiry deadline is wall-clock now + expire_secs and the loader is handed the wall clock. Also: the handler of a failed write only logs (nothing in it can raise and end the writer thread); loading converts exactly maps to dict and sequences to list. Also: every normal way out of the writer thread passes the shutdown flush test; a restarted expiry deadline is written to disk on every path. Also: an operator setting's variable is marked persistent before its value is set (the set is what writes). Also: the finished temp file replaces the target in one step (no remove / rename of the target); a removed machine variable is removed on disk by rewriting the whole set. Also: a removal by pattern rewrites the persisted set on every path; a save is refused only for an unknown file type.",
         technique="CFG pairing on normal and exceptional paths; order/dominance; dead-guard check; record-key table agreement",
         ref="4/C15"),
     "C16": dict(
@@ -260,7 +260,7 @@ CLAIMS = {
              "runs before completion events; pause/advance/step_back cancel the pending step first; LightPlayer colours under "
              "key=full_context and clear_context/remove use the same key and record, the light's removal scans are left early "
              "only at the key; ShowPlayer and CoilPlayer clear what they started. k-th step instants under speed updates, "
-             "token substitution and concurrent shows on one light are not decided. Also: played/looped/completed/stopped events are queued and posted at their moments; start-step table and negative index wrap; the light player honours the stop colour and forwards the step's start time. Also: advance() / step_back() cancel the pending step, rebase the clock and move the index before they run the step (once, last). Also: a per-show token cache is keyed by the token values (CACHE-17); the events list of a step is fresh per play; replace_or_advance_show keeps or advances the running instance only when it has already run a step and stands exactly at / one step before the requested step (SYNC-17); RunningShow.update applies every value that is not None (UPD-17). Also: every play parameter reaches the RunningShow under its own name on every route (Show.play, play_show_with_config, replace_or_advance_show, ShowPlayer._play/_queue, ShowConfig field order), defaults replace only None; a replaced running show is stopped on every path that starts its successor; the show player's action table and instance actions; config players change handed settings only in a private copy. Also: the show-pool pass-throughs hand every parameter on under its own name. Also: at its start a show runs its start callback (stopping the replaced show) before its first step; each key's fade-out entry has a clean-up timer of its own. Also: a show started by a condition is stopped by it under the same key, instance dict and show name. Also: the light's hardware-update shortcuts read the remembered fade correctly (shared with C09), so stopped shows leave the hardware as they found it. Also: a show step hands its nominal time to the players it drives.",
+             "token substitution and concurrent shows on one light are not decided. Also: played/looped/completed/stopped events are queued and posted at their moments; start-step table and negative index wrap; the light player honours the stop colour and forwards the step's start time. Also: advance() / step_back() cancel the pending step, rebase the clock and move the index before they run the step (once, last). Also: a per-show token cache is keyed by the token values (CACHE-17); the events list of a step is fresh per play; replace_or_advance_show keeps or advances the running instance only when it has already run a step and stands exactly at / one step before the requested step (SYNC-17); RunningShow.update applies every value that is not None (UPD-17). Also: every play parameter reaches the RunningShow under its own name on every route (Show.play, play_show_with_config, replace_or_advance_show, ShowPlayer._play/_queue, ShowConfig field order), defaults replace only None; a replaced running show is stopped on every path that starts its successor; the show player's action table and instance actions; config players change handed settings only in a private copy. Also: the show-pool pass-throughs hand every parameter on under its own name. Also: at its start a show runs its start callback (stopping the replaced show) before its first step; each key's fade-out entry has a clean-up timer of its own. Also: a show started by a condition is stopped by it under the same key, instance dict and show name. Also: the light's hardware-update shortcuts read the remembered fade correctly (shared with C09), so stopped shows leave the hardware as they found it. Also: a show step hands its nominal time to the players it drives. Also: a fade-out starts from what the removed key showed (shared with C09).",
         technique="expression-shape and CFG dominance on the step path; loop-account guards; key-agreement between register and clear sites",
         ref="4/C17"),
     "C18": dict(
